@@ -106,6 +106,9 @@ int main(int argc, char** argv) {
   cur.clear();
   std::string replay_path;
   if (failed) {
+    // crash-safe: publish the failure as found before minimising it further (a candidate may kill the process)
+    if (!failout.empty()) write_file(failout, "# property " + prop + "\n# signature " + ff.sig + "\n# " + ff.msg + "\n" + to_text(fh));
+    if (!out.empty()) write_stats(out, prop, st, true, ff.sig, ff.msg, failout, extra_json);
     // rapidcheck's last failing execution is its shrunk counterexample; minimise further on steps
     History m = special::minimise_any(fh, ps, ff.sig);
     Fail f2 = ff;
